@@ -36,10 +36,14 @@ TREE = {
     "inc/h.h": "#define FROM_H 1\ncbi_m_h_2;\n",
     "inc2/g.h": "cbi_m_g_1;\n",
     "other/unnamed.c": "cbi_m_u_1;\n",
+    "src/ca.c": "#include <config.h>\ncbi_m_ca_2;\n#ifdef CFG_A\ncbi_m_ca_4;\n#else\ncbi_m_ca_6;\n#endif\n",
+    "src/cb.c": "#include <config.h>\ncbi_m_cb_2;\n#ifdef CFG_A\ncbi_m_cb_4;\n#else\ncbi_m_cb_6;\n#endif\n",
+    "build/a/config.h": "#define CFG_A 1\ncbi_m_cfga_2;\n",
+    "build/b/config.h": "#define CFG_B 1\ncbi_m_cfgb_2;\n",
     "build/obj.o": "\x7fELF",
     "build/gen.txt": "x\n",
 }
-DIRS = ["src", "src/sub", "inc", "inc2", "other", "build", "build/deep"]
+DIRS = ["src", "src/sub", "inc", "inc2", "other", "build", "build/deep", "build/a", "build/b"]
 
 
 def bounds(tier):
@@ -56,7 +60,7 @@ def required_cells(tier):
         cells.append("inc:" + i)
     cells += ["wd:root", "wd:build-inside", "wd:build-outside", "skip:missing/first", "skip:missing/middle", "skip:missing/last",
               "skip:object", "skip:link", "skip:empty-command", "skip:empty-arguments", "unnamed-file-unattributed",
-              "gcc-confirmed", "class:grid", "class:random"]
+              "gcc-confirmed", "class:grid", "class:random", "same-spelling-different-build-dirs"]
     return cells
 
 
@@ -185,8 +189,10 @@ def check_db(ctx, base, root, entries, metas, skips, cls):
                 if not (os.path.exists(e["file"]) and os.path.samefile(e["file"], want)):
                     problems.append({"kind": "file-resolution", "entry": m["argv"], "directory": m["wd"], "expected": want, "observed": e["file"]})
                 wi = [os.path.join(root, "inc"), os.path.join(root, "inc2")]
+                if m.get("n_inc") == 3:
+                    wi = [m["wd"]] + wi
                 oi = e["include_paths"]
-                if len(oi) != 2 or not all(os.path.isdir(o) and os.path.samefile(o, w) for o, w in zip(oi, wi)):
+                if len(oi) != len(wi) or not all(os.path.isdir(o) and os.path.samefile(o, w) for o, w in zip(oi, wi)):
                     problems.append({"kind": "include-dir-resolution", "entry": m["argv"], "directory": m["wd"], "dstyle": m["dstyle"],
                                      "istyle": m["istyle"], "expected": wi, "observed": oi})
                 if e["defines"] != m["defines"]:
@@ -269,6 +275,31 @@ def run_shard(ctx):
             else:
                 es, ms = [e1, e2, sk], [m1, m2, None]
             check_db(ctx, base, root, es, ms, [(kind, pos)], "grid")
+    # two entries of one platform run in different build directories, each with `-I.` and its own config.h
+    for order in (0, 1):
+        for form in ("arguments", "command"):
+            idx += 1
+            if not ctx.mine(idx):
+                continue
+            es, ms = [], []
+            for src, sub in (("src/ca.c", "a"), ("src/cb.c", "b")):
+                wd = os.path.join(root, "build", sub)
+                fsp = os.path.relpath(os.path.join(root, src), wd)
+                argv = ["gcc", "-I.", "-I", os.path.relpath(os.path.join(root, "inc"), wd), "-I" + os.path.join(root, "inc2"), "-c", fsp]
+                e = {"file": fsp, "directory": wd if order else os.path.relpath(wd, root)}
+                if form == "arguments":
+                    e["arguments"] = argv
+                else:
+                    import shlex
+                    e["command"] = shlex.join(argv)
+                es.append(e)
+                ms.append({"src": src, "wd": wd, "wd_kind": "build-inside", "dstyle": "abs" if order else "rel", "fstyle": "rel", "istyle": "rel",
+                           "argv": argv, "defines": [], "n_inc": 3})
+            if order:
+                es.reverse()
+                ms.reverse()
+            ctx.acc.cells["same-spelling-different-build-dirs"] += 1
+            check_db(ctx, base, root, es, ms, [], "grid")
     # R: random multi-entry databases
     rng = ctx.rng("random")
     for i in range(bounds(ctx.tier)["random"]):
